@@ -367,7 +367,19 @@ class _Run:
                     if env is None:
                         return None
                 return env
-            return env
+            # at least one operand has the value `truth`: join of the refinements, each one
+            # taken after the previous operands had the opposite value (short-circuit)
+            acc = None
+            prefix = env
+            for v in t.values:
+                one = self.refine(v, prefix.copy(), truth)
+                if one is not None:
+                    acc = one if acc is None else join_env(acc, one)
+                nxt = self.refine(v, prefix.copy(), not truth)
+                if nxt is None:
+                    break
+                prefix = nxt
+            return acc if acc is not None else env
         if isinstance(t, ast.Call) and dotted(t.func) == "isinstance" and len(t.args) == 2 and isinstance(t.args[0], ast.Name):
             name = t.args[0].id
             cur = env.vars.get(name)
